@@ -38,14 +38,17 @@ def splitmix64(*parts):
     return int.from_bytes(h[:8], "little")
 
 
-def engine_of(prop):
+def engine_of(prop, index=None):
+    """C20 also has a container-world facet (two decodes through one Tdf object): every 4th run."""
+    if prop == "C20" and index is not None and index % 4 == 3:
+        return "W1"
     return "W2" if prop in W2_PROPS else "W1"
 
 
 def generate(prop, tier, base, index):
     seed = splitmix64(base, prop, index)
     rng = random.Random(seed)
-    if engine_of(prop) == "W1":
+    if engine_of(prop, index) == "W1":
         from . import ops1
         cfg, ops = ops1.gen_run(rng, prop, index, tier)
     else:
@@ -100,7 +103,11 @@ def run_chunk(args):
     """Worker: executes a range of run indices; returns a compact summary."""
     prop, tier, base, indices, deadline = args
     faulthandler.dump_traceback_later(max(30.0, deadline - time.time() + 60), exit=True)
-    engine = engine_of(prop)
+    try:  # a decoder fed a garbage count must hit MemoryError quickly, not swap the machine
+        import resource
+        resource.setrlimit(resource.RLIMIT_AS, (8 << 30, 8 << 30))
+    except Exception:
+        pass
     stats = Counter()
     states, transitions = set(), set()
     nontrivial = set()
@@ -115,6 +122,7 @@ def run_chunk(args):
         if time.time() > deadline:
             break
         seed, cfg, ops = generate(prop, tier, base, i)
+        engine = engine_of(prop, i)
         try:
             v, w = execute(engine, cfg, ops)
         except HarnessError as e:
@@ -138,7 +146,7 @@ def run_chunk(args):
         mine = [x for x in v if relevant(prop, x)]
         if mine:
             if len(found) < 3:
-                found.append({"index": i, "seed": seed, "cfg": cfg, "ops": gen.to_json(ops), "violations": mine})
+                found.append({"index": i, "seed": seed, "engine": engine, "cfg": cfg, "ops": gen.to_json(ops), "violations": mine})
             stats["runs_with_violation"] += 1
         elif v:
             other[v[0]["prop"]] += 1
@@ -224,14 +232,14 @@ def replay_fixed(known, prop):
 
 def minimise_and_write(prop, tier, item):
     """Shrink one failing run, write the replay file, verify it in a fresh interpreter."""
-    engine = engine_of(prop)
+    engine = item.get("engine") or engine_of(prop, item["index"])
     cfg, ops = item["cfg"], gen.from_json(item["ops"])
     v0 = item["violations"][0]
     target = vclass(v0)
 
     def ex(c, o):
         return execute(engine, c, o)[0]
-    c2, o2, nexec = shrink(ex, cfg, ops, target)
+    c2, o2, nexec = shrink(ex, cfg, ops, target, step=v0.get("step"))
     vs, w = execute(engine, c2, o2)
     vm = next((x for x in vs if vclass(x) == target), None)
     if vm is None:  # shrinking lost it (should not happen): fall back to the original
@@ -402,6 +410,6 @@ def digests(prop, tier, base, n):
     out = []
     for i in range(n):
         seed, cfg, ops = generate(prop, tier, base, i)
-        v, w = execute(engine_of(prop), cfg, ops)
+        v, w = execute(engine_of(prop, i), cfg, ops)
         out.append(w.digest()[:16] + ":" + ",".join(sorted({x["pattern"] for x in v})))
     return out
